@@ -258,7 +258,7 @@ theorem prog_spec (n : Nat) (H : History) :
   refine e2 _ _ _ ?_ ?_
   · simp [W2, rootObs, Lay.sc, lay, scOf, sjs]
   refine wp_newObservers (scOf (n + 1)) (mk (n + 1)) (n + 1) _ _ [] 0 _ rfl (by simp [scOf])
-    (W2_ser (lay (n + 1)) _ _) (W2_map (lay (n + 1)) _ _) (by intro p hp; cases hp) ?_
+    (W2_ser (lay (n + 1)) _ _) (W2_map (lay (n + 1)) _ _) (by intro p hp; cases hp) ⟨_, rfl, rfl⟩ ?_
   have hol : (W2 (lay (n + 1)) [encQ (List.replicate (n + 1) [])]
       (oZip ((sjs (n + 1)).headD default).observable ((sjs (n + 1)).tail.map Subj.observable))).obs.length = 1 := rfl
   rw [hol, zip_eq]
